@@ -256,17 +256,23 @@ type PollAnswer struct {
 
 type Server struct {
 	Chain Chain
-	HS    *httptest.Server
+	// Alt: a second version of the chain (a reorg: same blocks below some
+	// height, other blocks from there on).  verBase / verAttach say which
+	// version answers the blocks/headers batch and which one the receipts /
+	// logs / trace requests (0 = Chain, 1 = Alt).
+	Alt Chain
+	HS  *httptest.Server
 
 	mu        sync.Mutex
 	failBase  bool
 	failExtra bool
 	faultKind int
 	// per-key budget of base requests to fail (concurrent runs)
-	failKeys map[[2]uint64]int
-	failTrce map[uint64]int // block number -> trace_block requests to fail
-	counts   map[string]int
-	head     *Head // answer to a direct "latest" (nil = fail)
+	failKeys           map[[2]uint64]int
+	failTrce           map[uint64]int // block number -> trace_block requests to fail
+	verBase, verAttach int
+	counts             map[string]int
+	head               *Head // answer to a direct "latest" (nil = fail)
 
 	// poll gate: every poll request announces itself on Arrived and waits for
 	// an answer on Release; nil = polls are answered like direct requests
@@ -302,6 +308,13 @@ func (s *Server) FailKey(start, limit uint64, n int) {
 func (s *Server) FailTrace(n uint64, k int) {
 	s.mu.Lock()
 	s.failTrce[n] = k
+	s.mu.Unlock()
+}
+
+// SetVersions chooses the chain version per request class.
+func (s *Server) SetVersions(base, attach int) {
+	s.mu.Lock()
+	s.verBase, s.verAttach = base, attach
 	s.mu.Unlock()
 }
 
@@ -419,6 +432,10 @@ func (s *Server) handle(w http.ResponseWriter, r *http.Request) {
 	s.counts[cls]++
 	fail := (cls == ClsBase && s.failBase) || (cls == ClsExtra && s.failExtra)
 	kind := s.faultKind
+	chain := s.Chain
+	if s.Alt != nil && ((cls == ClsBase && s.verBase == 1) || ((cls == ClsExtra || cls == ClsTrace) && s.verAttach == 1)) {
+		chain = s.Alt
+	}
 	var head *Head
 	if s.head != nil {
 		h := *s.head
@@ -460,8 +477,8 @@ func (s *Server) handle(w http.ResponseWriter, r *http.Request) {
 	case ClsTrace:
 		n, ok := parseQ(reqs[0].Params[0])
 		var result any
-		if ok && n < uint64(len(s.Chain)) {
-			result = s.Chain.tracesJSON(n)
+		if ok && n < uint64(len(chain)) {
+			result = chain.tracesJSON(n)
 		}
 		w.Header().Set("content-type", "application/json")
 		json.NewEncoder(w).Encode(map[string]any{"jsonrpc": "2.0", "id": ids[0], "result": result})
@@ -477,17 +494,17 @@ func (s *Server) handle(w http.ResponseWriter, r *http.Request) {
 			n, ok := parseQ(reqs[i].Params[0])
 			var full bool
 			json.Unmarshal(reqs[i].Params[1], &full)
-			if !ok || n >= uint64(len(s.Chain)) {
+			if !ok || n >= uint64(len(chain)) {
 				out = append(out, map[string]any{"jsonrpc": "2.0", "id": ids[i], "result": nil})
 				continue
 			}
-			bj := s.Chain.blockJSON(n, full)
+			bj := chain.blockJSON(n, full)
 			switch {
 			case corrupt == FaultBadLink && i == (len(reqs)-1)/2:
-				bj["hash"] = hx(Hash32(s.Chain[n].Hash + BadHashDelta))
+				bj["hash"] = hx(Hash32(chain[n].Hash + BadHashDelta))
 			case corrupt == FaultRenumber && i == len(reqs)-1:
 				bj["number"] = qn(n + 1)
-				bj["hash"] = hx(Hash32(s.Chain[n].Hash + BadHashDelta))
+				bj["hash"] = hx(Hash32(chain[n].Hash + BadHashDelta))
 			}
 			out = append(out, map[string]any{"jsonrpc": "2.0", "id": ids[i], "result": bj})
 		}
@@ -498,17 +515,17 @@ func (s *Server) handle(w http.ResponseWriter, r *http.Request) {
 		if reqs[0].Method == "eth_getBlockReceipts" {
 			for i := range reqs {
 				n, ok := parseQ(reqs[i].Params[0])
-				if !ok || n >= uint64(len(s.Chain)) {
+				if !ok || n >= uint64(len(chain)) {
 					out = append(out, map[string]any{"jsonrpc": "2.0", "id": ids[i], "result": nil})
 					continue
 				}
-				out = append(out, map[string]any{"jsonrpc": "2.0", "id": ids[i], "result": s.Chain.receiptsJSON(n)})
+				out = append(out, map[string]any{"jsonrpc": "2.0", "id": ids[i], "result": chain.receiptsJSON(n)})
 			}
 		} else {
 			to, _ := parseQ(reqs[0].Params[0])
 			var hdr any
-			if to < uint64(len(s.Chain)) {
-				hdr = s.Chain.headerJSON(to)
+			if to < uint64(len(chain)) {
+				hdr = chain.headerJSON(to)
 			}
 			var lf struct {
 				From    string   `json:"fromBlock"`
@@ -519,7 +536,7 @@ func (s *Server) handle(w http.ResponseWriter, r *http.Request) {
 			a, _ := strconv.ParseUint(strings.TrimPrefix(lf.From, "0x"), 16, 64)
 			b, _ := strconv.ParseUint(strings.TrimPrefix(lf.To, "0x"), 16, 64)
 			out = append(out, map[string]any{"jsonrpc": "2.0", "id": ids[0], "result": hdr})
-			out = append(out, map[string]any{"jsonrpc": "2.0", "id": ids[1], "result": s.Chain.logsJSON(a, b, lf.Address)})
+			out = append(out, map[string]any{"jsonrpc": "2.0", "id": ids[1], "result": chain.logsJSON(a, b, lf.Address)})
 		}
 		w.Header().Set("content-type", "application/json")
 		json.NewEncoder(w).Encode(out)
